@@ -52,6 +52,11 @@ def toName : Sx → Option Name
   | .atom "xtpath" => some .xtPath
   | _ => none
 
+/-- `-` or a number -/
+def Sx.optNat? : Sx → Option (Option Nat)
+  | .atom "-" => some none
+  | x => x.nat?.map some
+
 mutual
   partial def toCmd : Sx → Option Cmd
     | .list [.atom "probe", n] => do pure (.probe (← n.nat?))
@@ -66,6 +71,7 @@ mutual
     | .list [.atom "setm", n] => do pure (.setM ((← n.nat?) != 0))
     | .list [.atom "call", n] => do pure (.call (← toName n))
     | .list [.atom "unk"] => some .unknown
+    | .list [.atom "abs", w, a] => do pure (.absent (← w.optNat?) (← a.optNat?))
     | .list [.atom "tick", c, k] => do pure (.tick (← c.nat?) (← k.nat?))
     | .list [.atom "grp", l] => do pure (.group (← toList l))
     | .list [.atom "sub", l] => do pure (.subshell (← toList l))
